@@ -200,6 +200,12 @@ def judge_grid(grid, fmt, opts=None):
     if len(units) != len(grid["sheets"]) or [u.get_metadata().unit_number for u in units] != list(range(1, len(units) + 1)):
         fails.append(("units", f"{len(units)} units numbered {[u.get_metadata().unit_number for u in units]} for {len(grid['sheets'])} sheets"))
     for si, (sh, t) in enumerate(zip(grid["sheets"], tables)):
+        if si < len(units):     # unit coverage is judged whatever the table shape is (rows lost from the table are usually lost from the unit too)
+            utoks = set(find(units[si].get_text()))
+            stoks = {c["v"] for row in sh["rows"] for c in row if c and c["t"] == "s" and c["v"][1] == "B"}
+            others = {c["v"] for j, s2 in enumerate(grid["sheets"]) if j != si for row in s2["rows"] for c in row if c and c["t"] == "s"}
+            if not stoks <= utoks or utoks & others:
+                fails.append(("units", f"unit {si + 1} text lacks {sorted(stoks - utoks)[:3]} / holds foreign {sorted(utoks & others)[:3]}"))
         want = sheets.expected_grid(sh)
         got = t.get_table()
         d = t.get_dim()
@@ -215,12 +221,6 @@ def judge_grid(grid, fmt, opts=None):
             if bad is not None:
                 fails.append(("cell", f"sheet {si + 1} cell ({ri + 1},{bad + 1}): got {grow[bad] if bad < len(grow) else None!r}, source {wrow[bad]}"))
                 break
-        if si < len(units):
-            utoks = set(find(units[si].get_text()))
-            stoks = {c["v"] for row in sh["rows"] for c in row if c and c["t"] == "s" and c["v"][1] == "B"}
-            others = {c["v"] for j, s2 in enumerate(grid["sheets"]) if j != si for row in s2["rows"] for c in row if c and c["t"] == "s"}
-            if not stoks <= utoks or utoks & others:
-                fails.append(("units", f"unit {si + 1} text lacks {sorted(stoks - utoks)[:3]} / holds foreign {sorted(utoks & others)[:3]}"))
     return fails
 
 
@@ -375,7 +375,9 @@ def units_leg(ctx: Ctx) -> Partial:
     for fmt in ("xlsx", "ods", "xls"):
         sub = Ctx("C13", ctx.tier, ctx.seed, [k for k in load_known_c13()], 0, 1)
         n = ctx.n(100, 1500)
-        cases = sheets.grids(fmt, headers="plain", max_sheets=ctx.n(5, 12)).map(lambda g: {"grid": g, "opts": {}})
+        # the same storage options as the C13 shard: run-length rows, cell comments and (nested) row groups move rows into containers a unit must still cover
+        optst = st.fixed_dictionaries({"inline_strings": st.booleans(), "permute_parts": st.booleans()}) if fmt == "xlsx" else (st.fixed_dictionaries({"rle": st.booleans(), "comments": st.booleans(), "row_groups": st.booleans()}) if fmt == "ods" else st.just({}))
+        cases = st.tuples(sheets.grids(fmt, headers="plain", max_sheets=ctx.n(5, 12)), optst).map(lambda t: {"grid": t[0], "opts": t[1]})
 
         def ev(c, fmt=fmt):
             v = evaluate_grid(sub, c["grid"], fmt, part, c["opts"])
